@@ -13,6 +13,8 @@ PID = "C02"
 EPS = 2.0 ** -52
 TAGS = ["lower", "unit_lower", "upper", "unit_upper", "spd", "semi", "indef", "cg"]
 EXACT_TAGS = TAGS[:5]                      # covered by the Q model
+MODEL_KINDS = ("exact", "lustruct")        # case kinds the extracted model is run on (lustruct: pivots exact, factor 1e-12)
+LU_TOL = Fr(1, 10 ** 12)
 C_RES = 64.0                               # residual monitor: |Ax-b| <= C_RES * n * eps * (|A||x| + |b|)
 BIG = [31, 32, 33, 40]                     # sizes around the blocking threshold 32 of trsm/potrf (rhs panel 16, getrf 4, pstrf 20)
 
@@ -95,6 +97,47 @@ def gen_lu_struct(rng, n):
     if rng.random() < 0.4:
         perm = list(range(n)); rng.shuffle(perm); a = [a[k] for k in perm]
     return a
+def py_getrf(a):
+    """reference run of the unblocked partial-pivoting LU with the rule as coded (a later row wins only if strictly larger
+    in absolute value), exact rationals; used by the GENERATOR only (to keep every intermediate value a small dyadic rational)"""
+    a = [list(r) for r in a]; n = len(a); perm = []
+    for j in range(n):
+        p = j
+        for i in range(j + 1, n):
+            if abs(a[i][j]) > abs(a[p][j]): p = i
+        if a[p][j] == 0: return None
+        perm.append(p); a[j], a[p] = a[p], a[j]
+        for i in range(j + 1, n):
+            a[i][j] /= a[j][j]
+            for k in range(j + 1, n): a[i][k] -= a[i][j] * a[j][k]
+    return a, perm
+def small_dyadic(v, bits=20):
+    d = v.denominator
+    return d & (d - 1) == 0 and d <= 2 ** bits and abs(v.numerator) <= 2 ** (bits + 10)
+def gen_lu_exact(rng, n, ties=False, singular=False):
+    """A = P^T L U with dyadic unit-lower L (|l| <= 1/2, or |l| = 1 where the tie rule matters), power-of-two pivots (one of them
+    0 if singular): the partial-pivoting LU of A runs in exactly representable numbers, blocked or not"""
+    for attempt in range(60):
+        lv = [Fr(0), Fr(1, 2), Fr(-1, 2), Fr(1, 4), Fr(-1, 4)] + ([Fr(1), Fr(-1), Fr(1), Fr(-1)] if ties and attempt < 50 else [])
+        l = [[(rng.choice(lv) if j < i else Fr(int(i == j))) for j in range(n)] for i in range(n)]
+        u = [[(rint(rng, -2, 2) if j > i else (rng.choice([Fr(1), Fr(2), Fr(4), Fr(1, 2), Fr(-1), Fr(-2)]) if i == j else Fr(0))) for j in range(n)] for i in range(n)]
+        if singular:
+            k = rng.randrange(n); u[k][k] = Fr(0)
+        a = mmul(l, u); perm = list(range(n)); rng.shuffle(perm); a = [a[k] for k in perm]
+        r = py_getrf(a)
+        if r is None:
+            if singular: return a
+            continue
+        if not singular and all(small_dyadic(v) for row in r[0] for v in row): return a
+    raise RuntimeError("gen_lu_exact: no representable sample")
+def ldl_pd(a):
+    """exact test for positive definiteness (square-root free LDL^T); returns 0 or the 1-based index of the first pivot <= 0"""
+    n = len(a); l = [[Fr(0)] * n for _ in range(n)]; d = [Fr(0)] * n
+    for j in range(n):
+        d[j] = a[j][j] - sum(l[j][k] * l[j][k] * d[k] for k in range(j))
+        if d[j] <= 0: return j + 1
+        for i in range(j + 1, n): l[i][j] = (a[i][j] - sum(l[i][k] * l[j][k] * d[k] for k in range(j))) / d[j]
+    return 0
 def gen_semi_deficient(rng, n):
     # property quantifier: rank deficiencies 0..n-1, i.e. rank >= 1 (the zero matrix is outside; see report)
     if n == 1: return [[Fr(rng.choice([1, 2, 4]))]], 1
@@ -119,8 +162,8 @@ def S_line(tag, side, ao, rhs, bo, n, m, a, b): return "S %s %s %s %s %s %d %d |
 
 def gen_S_exact(rng, tag, side, ao, rhs, bo, n):
     m = 1 if rhs == "v" else rng.choice([1, 2, 3, 5, 17] if n <= 12 else [2, 17, 33])
-    a = gen_spd_exact(rng, n) if tag == "spd" else gen_tri_exact(rng, n, tag)
-    t = a if tag == "spd" else tri_of(tag, a)
+    a = gen_spd_exact(rng, n) if tag == "spd" else (gen_lu_exact(rng, n, ties=rng.random() < 0.3) if tag == "indef" else gen_tri_exact(rng, n, tag))
+    t = a if tag in ("spd", "indef") else tri_of(tag, a)
     if side == "L":
         x = [[rint(rng, -4, 4) for _ in range(m)] for _ in range(n)]; b = mmul(t, x)
     else:
@@ -153,7 +196,7 @@ def gen_cases(rng, tier):
             cases.append(("exact", "S %s %s r v r 2 1 | 4 0 0 4 | 0 0" % (tag, s)))
     combos = [(s, ao, rhs, bo) for s in "LR" for ao in "rc" for rhs, bo in (("v", "r"), ("m", "r"), ("m", "c"))]
     # exact stream (model = implementation, residual exactly zero)
-    for tag in EXACT_TAGS:
+    for tag in EXACT_TAGS + ["indef"]:
         for ci, (s, ao, rhs, bo) in enumerate(combos):
             ns = [rng.choice(small) for _ in range(3 if not big else 8)] + ([rng.choice(BIG)] if (big or (ci + TAGS.index(tag)) % 3 == 0) else [])
             if big: ns += list(range(13, 41, 3))
@@ -191,6 +234,20 @@ def gen_cases(rng, tier):
             a = gen_spd_exact(rng, n)
             cases.append(("exact", "C %s %d | %s" % (ao, n, fl(a))))
             for tri in ("lower", "upper"): cases.append(("exact", "K %s %s %d | %s" % (tri, ao, n, fl(a))))
+        # pivoted LU, exactly representable runs: unique pivots, ties (|l| = 1), singular (getrf must throw); sizes around the
+        # block size 4 of getrf_recursive and up to the trsm threshold
+        for n in [1, 2, 3, 4, 5, 8, 9] + [rng.choice(small) for _ in range(4 if not big else 12)] + [rng.choice([13, 17, 24] + BIG)] + (BIG if big else []):
+            cases.append(("exact", "G %s %d | %s" % (ao, n, fl(gen_lu_exact(rng, n)))))
+            if n <= 16: cases.append(("exact", "G %s %d | %s" % (ao, n, fl(gen_lu_exact(rng, n, ties=True)))))
+            cases.append(("exact", "G %s %d | %s" % (ao, n, fl(gen_lu_exact(rng, n, singular=True)))))
+            m = rng.choice([1, 2, 3]); za = gen_lu_exact(rng, n, ties=rng.random() < 0.3)
+            cases.append(("exact", "Z indef %s %d %d | %s | %s" % (ao, n, m, fl(za), fl(mmul(za, [[rint(rng, -4, 4) for _ in range(m)] for _ in range(n)])))))
+        # potrf on matrices that are NOT positive definite: pivot k is made negative; return value and the matrix left behind
+        for n in [rng.choice(small) for _ in range(3 if not big else 8)] + [rng.choice([33, 40])] + ([33, 40, 70] if big else []):
+            a = gen_spd_exact(rng, n); k = rng.randrange(n); a[k][k] -= a[k][k] + rng.choice([1, 2, 5])
+            for tri in ("lower", "upper"):
+                # n > 32: only the variants whose diagonal blocks run the left-looking kernel are modelled blocked
+                if n <= 32 or (tri, ao) in (("lower", "r"), ("upper", "c")): cases.append(("exact", "K %s %s %d | %s" % (tri, ao, n, fl(a))))
         for n in [rng.choice(small) for _ in range(4 if not big else 12)] + ([33, 40] if big else [rng.choice([33, 40])]):
             a = gen_float(rng, n, "spd", 10.0 ** rng.choice([0, 2, 4, 8]))
             cases.append(("float", "C %s %d | %s" % (ao, n, fl(a))))
@@ -200,7 +257,7 @@ def gen_cases(rng, tier):
             cases.append(("float", "U %s %d %s %s | %s | %s" % (ao, n, tok(alpha), tok(beta), fl(a2), fl([v]))))
             cases.append(("float", "G %s %d | %s" % (ao, n, fl(gen_float(rng, n, "gen", 10.0 ** rng.choice([0, 2, 4, 8]))))))
             if n <= 12:
-                for _ in range(2): cases.append(("float", "G %s %d | %s" % (ao, n, fl(gen_lu_struct(rng, n)))))
+                for _ in range(2): cases.append(("lustruct", "G %s %d | %s" % (ao, n, fl(gen_lu_struct(rng, n)))))
             cases.append(("float", "E %s %d | %s" % (ao, n, fl(symm(gen_float(rng, n, "gen", 100.0))))))
             cases.append(("float", "P %s %d | %s" % (ao, n, fl(gen_float(rng, n, "spd", 10.0 ** rng.choice([0, 2, 4]))))))
             d, r = gen_semi_deficient(rng, n)
@@ -283,6 +340,11 @@ def monitor(kind, line, o):
     if cmd in ("C", "K", "U", "G", "E", "P"):
         off = {"C": 2, "K": 3, "U": 2, "G": 2, "E": 2, "P": 2}[cmd]; n = int(h[off])
         a = mat(n, n, [num(t) for t in g[1]])
+        if cmd == "G" and exact:
+            # exactly representable run: getrf throws if and only if the matrix is singular
+            sing = rank_of(a) < n
+            if sing != (og is None): return ["getrf %s on a %s matrix" % ("succeeded" if sing else "reported an error (%s)" % o, "singular" if sing else "full-rank")]
+            if sing: return []
         if og is None:
             if cmd == "U": return []                     # documented: throws when the update makes the matrix indefinite
             return ["decomposition reported an error (%s)" % o]
@@ -292,6 +354,11 @@ def monitor(kind, line, o):
             return [x for x in [near(mmul(l, tr(l)), a, 0 if exact else tol, "L L^T vs A")] if x]
         if cmd == "K":
             ret = int(og[0][0]); f = mat(n, n, og[1]); up = h[1] == "upper"
+            bad = ldl_pd(a) if exact else 0
+            if bad:
+                if ret == 0: return ["potrf returned 0 on a matrix whose leading minor of order %d is not positive" % bad]
+                if n <= 32 and ret != bad: return ["potrf returned %d, the first non-positive pivot is %d" % (ret, bad)]
+                return []
             if ret != 0: return ["potrf returned %d on a positive definite matrix" % ret]
             l = [[f[i][j] if ((j >= i) if up else (j <= i)) else Fr(0) for j in range(n)] for i in range(n)]
             return [x for x in [near(mmul(tr(l), l) if up else mmul(l, tr(l)), a, 0 if exact else tol, "factor product vs A")] if x]
@@ -304,7 +371,11 @@ def monitor(kind, line, o):
             f = mat(n, n, og[0]); p = og[1]
             l = [[f[i][j] if j < i else Fr(int(i == j)) for j in range(n)] for i in range(n)]
             u = [[f[i][j] if j >= i else Fr(0) for j in range(n)] for i in range(n)]
-            return [x for x in [near(mmul(l, u), apply_swaps(a, p), tol * 16, "L U vs P A")] if x]
+            msgs = [x for x in [near(mmul(l, u), apply_swaps(a, p), 0 if exact else tol * 16, "L U vs P A")] if x]
+            if any(not (i <= int(p[i]) < n) for i in range(n)): msgs.append("permutation entry outside [i, n): %s" % [int(v) for v in p])
+            big_l = [(i, j) for i in range(n) for j in range(i) if abs(f[i][j]) > 1]
+            if big_l: msgs.append("|L(%d,%d)| = %.17g > 1 (the pivot was not the largest entry of its column)" % (big_l[0][0], big_l[0][1], float(abs(f[big_l[0][0]][big_l[0][1]]))))
+            return msgs
         if cmd == "E":
             q = mat(n, n, og[0]); d = og[1]
             qd = [[q[i][j] * d[j] for j in range(n)] for i in range(n)]
@@ -332,8 +403,23 @@ def monitor(kind, line, o):
 def same(model_line, impl_line):
     """exact equality of values: the model prints rationals, the harness hex floats"""
     if model_line.split(" ")[:2] != impl_line.split(" ")[:2]: return False
-    try: return out_groups(model_line) == out_groups(impl_line)
+    try:
+        m, i = out_groups(model_line), out_groups(impl_line)
+        if m is not None and i is not None and model_line.startswith("Z "):
+            # Z uses ONE right-hand side B = A X for all four calls: only the left solves (groups 0, 2) have exactly
+            # representable results; the right solves are tied exactly by the "S indef R" lines and residual-monitored here
+            return len(m) == len(i) and m[0] == i[0] and m[2] == i[2]
+        return m == i
     except ValueError: return False
+
+def close_lu(model_line, impl_line):
+    """G lines outside the exact stream: same pivot sequence, factor entries within 1e-12 (relative to max(1,|entry|))"""
+    if model_line.split(" ")[:2] != impl_line.split(" ")[:2]: return False
+    try: m, i = out_groups(model_line), out_groups(impl_line)
+    except ValueError: return False
+    if m is None or i is None: return m is None and i is None
+    if len(m) != 2 or len(i) != 2 or m[1] != i[1] or len(m[0]) != len(i[0]): return False
+    return all(abs(x - y) <= LU_TOL * max(1, abs(x)) for x, y in zip(m[0], i[0]))
 
 def key_of(line, build, msg):
     h = line.split("|")[0].split()
@@ -378,7 +464,7 @@ def main():
                         k, l2 = (l[1:].split(" ", 1) if l.startswith("%") else ("float" if "0x" in l else "exact", l)); cases.append((k, l2))
         cases += gen_cases(ck.rng, ck.tier)
     lines = [[c[1]] for c in cases]
-    mo = run_cases(model, lines, os.path.join(tmpd, "model_in.txt"), timeout=1700)
+    mo = run_cases(model, [[c[1]] if c[0] in MODEL_KINDS else ["N"] for c in cases], os.path.join(tmpd, "model_in.txt"), timeout=1700)
     nviol = 0; ndis = 0; cover = {}; reported = set()
     for bname, exe in builds.items():
         io = run_cases(exe, lines, os.path.join(tmpd, "impl_%s.txt" % bname), timeout=1700)
@@ -391,7 +477,7 @@ def main():
                 o = (b[0] if b else ""); msgs = ["implementation crashed/timed out (rc=%s) %s" % (rcb, o)]
             else:
                 o = b[0]; msgs = monitor(kind, line, o)
-            dis = (not msgs) and kind == "exact" and not a[0].endswith(" -") and not same(a[0], o)
+            dis = (not msgs) and not a[0].endswith(" -") and ((kind == "exact" and not same(a[0], o)) or (kind == "lustruct" and not close_lu(a[0], o)))
             if msgs or dis:
                 msg = msgs[0] if msgs else "model and implementation differ"
                 key = key_of(line, bname, msg)
